@@ -48,6 +48,7 @@ mod imp {
         match a.mode.as_str() {
             "walk" => walk(&a, &mut d),
             "exh" => exh(&a, &mut d, t0),
+            "single" => single(&a, &mut d),
             m => {
                 eprintln!("unknown mode {m}");
                 std::process::exit(2);
@@ -114,6 +115,75 @@ mod imp {
                 println!("DIGEST walk{flags} {g} {dg:016x}");
             }
         }
+    }
+
+    /// One abort-class request in its own process: a capacity that is representable but cannot be
+    /// allocated. Accepted outcomes: a panic (printed) or the allocator's failure abort (SIGABRT,
+    /// judged by the orchestrator). If the call returns, the usual monitors decide.
+    fn single(a: &Args, d: &mut Driver) {
+        use bytes::BufMut;
+        use vharness::seq::pool::Val;
+        let start = a.usize("start", 8);
+        let op = a.usize("op", 0);
+        let cls = a.usize("arg", 0);
+        let case = format!("single:{start}:{op}:{cls}");
+        vharness::out::journal(&case);
+        let mut ch = RandCh(Rng::new(1));
+        d.begin(case.clone());
+        ops::start_state(d, start);
+        d.check_all();
+        let i = (0..d.pool.len()).find(|&k| matches!(d.pool[k].val, Val::M(_))).expect("start state without BytesMut");
+        let (len, cap) = (d.pool[i].len(), d.pool[i].cap());
+        let n = match cls {
+            0 => 1usize << 41,
+            1 => 1usize << 46,
+            2 => isize::MAX as usize / 2,
+            3 => isize::MAX as usize - len - 1,
+            4 => isize::MAX as usize - len,
+            _ => (isize::MAX as usize - cap).min(isize::MAX as usize - len - 7),
+        };
+        let snap = d.snapshot();
+        let r = {
+            let m = match &mut d.pool[i].val {
+                Val::M(m) => m,
+                _ => unreachable!(),
+            };
+            util::catch(|| match op {
+                0 => m.reserve(n),
+                1 => m.resize(len + n, 1),
+                2 => m.put_bytes(2, n),
+                _ => {
+                    let _ = m.try_reclaim(n);
+                }
+            })
+        };
+        d.obs.inc("abort_class_calls");
+        match r {
+            Err(_) => {
+                d.obs.inc("abort_class_panicked");
+                println!("SINGLE {case} outcome=panicked");
+                if d.snapshot() != snap {
+                    d.viol("C13", "abort-class-panic-changed-state", &format!("abort-class request {case} (n={n}) panicked but changed a handle"));
+                }
+            }
+            Ok(()) => {
+                if op == 3 {
+                    println!("SINGLE {case} outcome=try_reclaim-answered");
+                    if d.snapshot() != snap {
+                        d.viol("C04", "abort-class-try_reclaim-changed", &format!("try_reclaim({n}) on {case} changed the handle"));
+                    }
+                } else {
+                    println!("SINGLE {case} outcome=returned");
+                    d.viol("C04", "abort-class-returned", &format!("request {case} (n={n}, len={len}, cap={cap}) returned; capacity is now {}", d.pool[i].cap()));
+                    d.viol("C13", "abort-class-returned", &format!("request {case} (n={n}, len={len}, cap={cap}) returned; capacity is now {}", d.pool[i].cap()));
+                }
+            }
+        }
+        d.check_all();
+        d.obs.cell(format!("single|start{start}|op{op}|arg{cls}"));
+        d.obs.sample(format!("{case}: n={n} on a BytesMut with len={len} cap={cap}"));
+        d.finish(&mut ch, false);
+        d.obs.inc("histories");
     }
 
     fn exh(a: &Args, d: &mut Driver, t0: Instant) {
